@@ -204,6 +204,32 @@ def allowed (base : Nat) : Op → Bool
 
 def allowedAll (base : Nat) (ops : List Op) : Bool := ops.all (allowed base)
 
+/-- The journal operations `make_call_frame` performs for a call action emitted by the frame running as `self`
+towards `to`, before the child interpreter starts (`CallInputs` as built by the handlers: CALL / EXTCALL
+transfer `self → to`, CALLCODE `self → self`, STATICCALL / EXTSTATICCALL carry `Transfer(0)`, the delegate calls
+an apparent value): `load_account_delegated`, `checkpoint`, the touch or transfer, `load_code`. -/
+def callFrameOps (s : Scheme) (self to : Addr) (value : Nat) : List Op :=
+  let xfer (target : Addr) : List Op :=
+    if value = 0 then [.load target, .touch target] else [.transfer self target value]
+  [.loadDelegated to, .checkpoint] ++
+  (match s with
+   | .call | .extCall => xfer to
+   | .callCode => xfer self
+   | .staticCall | .extStaticCall => [.load to, .touch to]
+   | .delegateCall | .extDelegateCall => []) ++
+  [.loadCode to]
+
+/-- The `Host` calls of the state-reading opcodes that carry no guard, as journal operations of the frame
+running as `self` with stack argument `arg` (`EvmContext as Host`: `balance` → `load_account`; `code`,
+`code_hash` → `load_code`; `sload`; `tload`; `block_hash` does not use the journal). -/
+def readOps (op : Nat) (self : Addr) (arg : Nat) : List Op :=
+  if op = 0x31 then [.load arg]
+  else if op = 0x47 then [.load self]
+  else if op = 0x3b ∨ op = 0x3c ∨ op = 0x3f then [.loadCode arg]
+  else if op = 0x54 then [.sload self arg]
+  else if op = 0x5c then [.tload self arg]
+  else []
+
 /-- every balance the journaled state or the database shows is a 256-bit word -/
 def BalOk (db : Db) (s : JState) : Prop := ∀ a, (worldAcct db s a).balance < W
 
